@@ -11,7 +11,12 @@ PROPS["C15"] = {
             "un-limited reference, and Ok implies nesting() <= L. "
             "stack job: cases = (family, filter, L) for every L in 0..255; each measures stack(L, d) for d around L, 2L+10 and 5000 (+20000 thorough); "
             "required: stack(L, d) for d > L equals stack(L, L+1) within one level, stack(L, d <= L) <= stack(L, L+1) + one level, "
-            "stack(L, L+1) <= 1.10*(stack(0) + b*L) + 64 with b the largest increment among L=0..3, and flat inputs use the same stack whatever their length. "
+            "stack(L, L+1) <= 1.10*(stack(0) + b*L) + 64 with b the largest increment among L=0..3; growth cases = (family whose length parameter n "
+            "grows without nesting: whitespace, n block / line / mixed comments, long comments, long string, n escapes, n-digit number, n elements, n members, "
+            "MessagePack str32/bin32/ext32 of n bytes, array32/map32 of n entries, n-byte key) x (placement: before the top-level value, in every gap between "
+            "the tokens of an array / object at depth 1 and at depth L, as a value at top level / depth 1 / depth L) x L in {1,2,3,10,255} x filter; "
+            "required: stack(n) within 64 bytes of stack(2) for n in {20, 200, 2000, 20000}. The stack job runs twice: default configuration and "
+            "ARDUINOJSON_ENABLE_COMMENTS=1 (the comment families exist only there). "
             "non-trivial = the deepest container opened by the input is within 2 of L (depth job), every stack case; distinct by case key",
     "assumptions": ["checks/ix_depth.hpp scanJson/scanMsgPack (iterative, written from RFC 8259 / the MessagePack spec) give the un-limited "
                     "classification and the deepest container opened before the end or the first error; cross-checked on every text with d <= 300 "
@@ -20,10 +25,14 @@ PROPS["C15"] = {
                     "L+1 is cut after its type byte both TooDeep and IncompleteInput are accepted",
                     "stack is measured as (address of a local of the calling function) - (lowest address of a local of read()/readBytes()), clang++ -O1, "
                     "x86-64; frames of code running between two read() calls and below them (allocator, string builder) are not seen",
-                    "default configuration (ARDUINOJSON_DEFAULT_NESTING_LIMIT=10, comments disabled)"],
+                    "clang++ -O1 keeps self-recursive tail calls of the parser as calls (measured: 32 bytes per comment for a `return skipSpacesAndComments();` "
+                    "refactoring); at -O2 such a call becomes a loop and the growth is not observable",
+                    "default configuration (ARDUINOJSON_DEFAULT_NESTING_LIMIT=10); comments enabled only in the second stack job"],
     "quick": [{"src": "checks/ix_depth.cpp", "mode": "depth", "deps": ["checks/ix_depth.hpp"]},
-              {"src": "checks/ix_depth.cpp", "mode": "stack", "flavour": "stack", "deps": ["checks/ix_depth.hpp"]}],
+              {"src": "checks/ix_depth.cpp", "mode": "stack", "flavour": "stack", "deps": ["checks/ix_depth.hpp"]},
+              {"src": "checks/ix_depth.cpp", "mode": "stack", "flavour": "stack", "defs": ["ARDUINOJSON_ENABLE_COMMENTS=1"], "deps": ["checks/ix_depth.hpp"]}],
     "thorough": [{"src": "checks/ix_depth.cpp", "mode": "depth", "deps": ["checks/ix_depth.hpp"]},
-                 {"src": "checks/ix_depth.cpp", "mode": "stack", "flavour": "stack", "deps": ["checks/ix_depth.hpp"]}],
+                 {"src": "checks/ix_depth.cpp", "mode": "stack", "flavour": "stack", "deps": ["checks/ix_depth.hpp"]},
+              {"src": "checks/ix_depth.cpp", "mode": "stack", "flavour": "stack", "defs": ["ARDUINOJSON_ENABLE_COMMENTS=1"], "deps": ["checks/ix_depth.hpp"]}],
     "thorough_deadline": 840,
 }
